@@ -535,7 +535,11 @@ def run_case(fam, actions):
         if binance:
             end = getattr(env, "end_time", loop.time())
             # tolerance: one poll period of the dispatcher + the scripted slowness / failure of an HTTP call
-            tol = 0.05 + (2 * STEP if any(x in actions for x in ("slow_http", "fail_http")) else 0)
+            # (every scripted slow HTTP call delays one request by 1.5 steps, and several of them can fall into ONE gap - a
+            # keep-alive PUT of the old key still in flight when the key is replaced, then the slow PUT of the new key: the
+            # latency the harness itself injects is never charged to the client)
+            tol = 0.05 + 1.5 * STEP * sum(1 for x in actions if x == "slow_http") + (2 * STEP if "fail_http" in actions else 0)
+            tol = max(tol, 0.05 + (2 * STEP if any(x in actions for x in ("slow_http", "fail_http")) else 0))
             for key, issuer in env.key_owner.items():
                 for ws in env.conns:
                     t_sub = next((t for t, m in ws.sent if m.get("method") == "SUBSCRIBE" and key in m.get("params", [])), None)
